@@ -49,8 +49,17 @@ SIMS = {
     "C15": [("MC_sim_Limit.cfg", 200, 2500)],
     "C08": [("MC_sim_Stop.cfg", 100, 1500)],
 }
-FREE = {"quick": 80, "thorough": 1000}
-FREE_LISTENER = {"quick": 250, "thorough": 3000}
+# free-running runs (no gates, real timing, 1 us poll interval of the loop; the done listener is slow now and then):
+# (family, quick count, thorough count)
+FREE_FAMS = {
+    "C01": [("order", 80, 1000), ("listener", 250, 3000)],
+    "C02": [("order", 80, 1000), ("listener", 250, 3000), ("limit", 150, 2000)],
+    "C03": [("order", 80, 1000), ("listener", 250, 3000), ("limit", 100, 1500)],
+    "C04": [("outcome", 80, 1000), ("stop", 150, 2000)],
+    "C05": [("stop", 150, 2000), ("replimit", 80, 1000)],
+    "C15": [("limit", 150, 2000), ("replimit", 150, 2000)],
+    "C08": [("stop", 200, 3000), ("replimit", 100, 1500), ("limit", 100, 1500)],
+}
 FACT_KEYS = ("stop", "stopPhase", "timeout", "dry", "kill", "anyRepeat")
 
 
@@ -142,7 +151,12 @@ def _run(prop, tier, seed, replay, rep, vh, work, finish=True):
     if replay:
         with open(replay) as f:
             rp = json.load(f)
-        add(dict(rp["replay"]["scenario"], tag="replay"))
+        if rp["replay"].get("free"):
+            # a free-running run is not reproducible step by step: the same scenario is run free 400 times
+            for _ in range(400):
+                add(dict(rp["replay"]["scenario"], tag="replay-free"))
+        else:
+            add(dict(rp["replay"]["scenario"], tag="replay"))
     else:
         # ---- 1. exhaustive model checking
         for cfg in MC[prop][tier]:
@@ -196,7 +210,10 @@ def _run(prop, tier, seed, replay, rep, vh, work, finish=True):
     tdir = os.path.join(work, "traces")
     os.makedirs(tdir)
     if scenarios:
-        jobs.append((["sched", "-scenarios", scen_path], os.path.join(tdir, "explicit.ndjson"), None))
+        if replay and scenarios[0].get("tag") == "replay-free":
+            jobs.append((["sched", "-free", "-scenarios", scen_path], os.path.join(tdir, "explicit-free.ndjson"), None))
+        else:
+            jobs.append((["sched", "-scenarios", scen_path], os.path.join(tdir, "explicit.ndjson"), None))
     if not replay:
         first = 1
         for fam, nq, nt in FAMILIES[prop]:
@@ -209,13 +226,11 @@ def _run(prop, tier, seed, replay, rep, vh, work, finish=True):
                              os.path.join(tdir, "rand-%s-%d.ndjson" % (fam, first)), os.path.join(tdir, "rand-%s-%d.scen" % (fam, first))))
                 first += m
                 k += m
-        fam0 = FAMILIES[prop][0][0]
-        jobs.append((["sched", "-free", "-family", fam0, "-count", str(FREE[tier]), "-seed", str(seed * 31 + 5), "-first", str(first)],
-                     os.path.join(tdir, "free.ndjson"), os.path.join(tdir, "free.scen")))
-        if prop in ("C01", "C02", "C03"):
-            jobs.append((["sched", "-free", "-family", "listener", "-count", str(FREE_LISTENER[tier]), "-seed", str(seed * 37 + 11),
-                          "-first", str(first + FREE[tier])],
-                         os.path.join(tdir, "listener-free.ndjson"), os.path.join(tdir, "listener-free.scen")))
+        for k, (fam, nq, nt) in enumerate(FREE_FAMS[prop]):
+            n = nq if q else nt
+            jobs.append((["sched", "-free", "-family", fam, "-count", str(n), "-seed", str(seed * 31 + 5 + 6 * k), "-first", str(first)],
+                         os.path.join(tdir, "%s-%d-free.ndjson" % (fam, k)), os.path.join(tdir, "%s-%d-free.scen" % (fam, k))))
+            first += n
 
     def do_job(j):
         args, tp, dp = j
@@ -230,6 +245,8 @@ def _run(prop, tier, seed, replay, rep, vh, work, finish=True):
         if dp and os.path.exists(dp):
             for line in open(dp):
                 s = json.loads(line)
+                if dp.endswith("-free.scen"):
+                    s["free"] = True
                 by_id[s["id"]] = s
 
     # ---- 4. trace validation
@@ -307,7 +324,8 @@ def _run(prop, tier, seed, replay, rep, vh, work, finish=True):
             for k in FACT_KEYS:
                 rec[k] = v[k]
             rec["failAfterStop"] = "failAfterStop" in v["facts"]
-            rep.violation(rec, {"scenario": sc, "verdict": v, "how": "bin/check %s --replay <this file>" % prop})
+            rep.violation(rec, {"scenario": sc, "verdict": v, "free": bool(sc and sc.get("free")),
+                                "how": "bin/check %s --replay <this file>" % prop + (" (free-running run: the scenario is run free 400 times)" if sc and sc.get("free") else "")})
     # drift verdicts of the Observe spec (snapshot mismatch) are drift, not violations
     for v in verdicts:
         if "DRIFT_SnapshotMismatch" in v["viol"]:
